@@ -39,6 +39,8 @@ pub fn maps_tokens(l: &mut Line, w: &World) {
 
 /// stands for "128 bytes into the first anonymous mapping" (its address is known only once the target runs)
 pub const CRASH_IP_ANON0_PLUS_128: u64 = u64::MAX - 0x80;
+/// stands for "0x400 bytes above the crash stack pointer" (the instruction pointer lies in the crash thread's own stack)
+pub const CRASH_IP_SP_PLUS_400: u64 = u64::MAX - 0x81;
 
 pub fn gen_plan(rng: &mut Rng, focus: &str, tier: &str, case_idx: u64) -> Plan {
     let force_k1 = focus == "c05" && case_idx == 0;   // the recorded finding K1 is exercised on every run
@@ -136,7 +138,7 @@ pub fn configure(rng: &mut Rng, plan: &Plan, target: &Target) -> Configured {
         // unset, another live thread, or arbitrary in half of the cases
         match rng.below(6) { 0 => cc.inner.tid = 0, 1 if nth > 0 => cc.inner.tid = target.tids[rng.below(nth as u64) as usize], 2 => cc.inner.tid = (rng.next() >> 40) as i32, _ => {} }
         let (sp, ip) = if plan.skip == 6 { (0x2000u64, anon[2] + 0x10) } else if plan.skip == 9 { (anon[2] + 0x100, anon[1] + 0x90) } else { (sp, ip) };
-        let ip = match plan.crash_ip { Some(x) if x == CRASH_IP_ANON0_PLUS_128 => anon[0] + 128, Some(x) => x, None => ip };
+        let ip = match plan.crash_ip { Some(x) if x == CRASH_IP_ANON0_PLUS_128 => anon[0] + 128, Some(x) if x == CRASH_IP_SP_PLUS_400 => sp.wrapping_add(0x400), Some(x) => x, None => ip };
         cc.inner.context.uc_mcontext.gregs[libc::REG_RSP as usize] = sp as i64;
         cc.inner.context.uc_mcontext.gregs[libc::REG_RIP as usize] = ip as i64;
         let copy = CrashContext { inner: cc.inner.clone() };
